@@ -1,1 +1,2 @@
 import DinoGen.Tableaux
+import DinoGen.ForcingConsts
